@@ -4,7 +4,7 @@
    op in {Pickle, Deepcopy, Clone None|shallow|deep}.  `conforms` = the stored value is one the
    trait's validator accepts (every state reached through the validators is). *)
 From Coq Require Import ZArith List Bool.
-From TV Require Import Common.Harness Common.CTables C14.Model C14.Law C14.Corr C14.Proofs C14.Whole C14.Hist.
+From TV Require Import Common.Harness Common.CTables C14.Model C14.Law C14.Corr C14.Proofs C14.Whole C14.Hist C14.Graph.
 Import ListNotations.
 Open Scope Z_scope.
 
@@ -115,6 +115,88 @@ Theorem ctrait_roundtrip :
     exists st, getstate T tr = Some st /\ ctrait_agree T (setstate T st tr0) tr.
 Proof. exact CTables.ctrait_roundtrip. Qed.
 Print Assumptions ctrait_roundtrip.
+
+(* ----- Instance graphs (C14/Graph.v): objects holding child objects through Instance / List(Instance) / Dict traits
+   with per-trait copy metadata; trees of any depth and width ----- *)
+
+(* the copy of an object graph: equal state at every depth; the new root and every object reached from it through
+   fields whose effective mode is deep are NEW (identities allocated during the copy), recursively with the same
+   operation and the children's own metadata; all of them are initialised *)
+Theorem instance_graph_copy :
+  forall op meta o n o' n', copy_obj op meta o n = (o', n') ->
+    n < n' /\ oerase o' = oerase o /\ (forall x, In x (dids op meta o') -> n <= x < n') /\
+    dinited op meta o' = true /\ id_of o' = n.
+Proof. intros op meta o. exact (copy_obj_spec op meta o). Qed.
+Print Assumptions instance_graph_copy.
+
+(* children reached through a field that is not deep (ref / shallow / no metadata under a reference copy) are the
+   original's child objects themselves — sharing by definition *)
+Theorem reference_children_are_shared :
+  forall op meta id ini sc ch n,
+    kept op meta (children_of (fst (copy_obj op meta (Ob id ini sc ch) n))) = kept op meta ch.
+Proof. exact copy_obj_kept. Qed.
+Print Assumptions reference_children_are_shared.
+
+(* a pickle copies the whole graph: every identity below the copy is new *)
+Theorem pickle_copies_whole_graph :
+  forall meta o n o' n', copy_obj Pickle meta o n = (o', n') -> forall x, In x (oids o') -> n <= x < n'.
+Proof.
+  intros meta o n o' n' H x Hx. destruct (copy_obj_spec Pickle meta o n o' n' H) as [_ [_ [D _]]].
+  apply D. rewrite dids_pickle_all. exact Hx.
+Qed.
+Print Assumptions pickle_copies_whole_graph.
+
+(* write-once-until-initialised attributes (UUID(can_init=True)): every copy is initialised, so the attribute
+   cannot be written again on it *)
+Theorem copy_is_initialised :
+  forall op meta o n k v, assign_initonly (fst (copy_obj op meta o n)) k v = None.
+Proof. intros op meta [id ini sc ch] n k v. rewrite copy_obj_eq.
+       destruct (copy_children (copy_obj op meta) op meta ch (n + 1)). reflexivity. Qed.
+Print Assumptions copy_is_initialised.
+
+(* aliasing inside one copy (the memo): an object reached a second time — anything with the same identity — is
+   given the very same copy, and nothing is allocated *)
+Theorem aliasing_preserved_by_memo :
+  forall op meta o1 o2 memo n c1 memo1 n1,
+    copy_m op meta o1 memo n = (c1, memo1, n1) -> id_of o2 = id_of o1 ->
+    copy_m op meta o2 memo1 n1 = (c1, memo1, n1).
+Proof. exact alias_preserved. Qed.
+Print Assumptions aliasing_preserved_by_memo.
+
+(* __setstate__ hooks the post_init handlers up after trait_set: every key of the restored object reads what the
+   pickled state says, whatever the handlers would write (probe 910; early_hooks_refuted = seed C14-t1) *)
+Theorem setstate_restores_quietly :
+  forall w flag state k,
+    sget (setstate_quiet w flag state) k =
+    match find (fun p => fst p =? k) (rev state) with Some p => snd p | None => 0 end.
+Proof. exact Graph.setstate_restores_quietly. Qed.
+Print Assumptions setstate_restores_quietly.
+
+(* a non-write-through delegate pickles only its local override: the unpickled one reads as the original and a
+   never-overridden one keeps following its target (probe 909; resolved_pickle_refuted = seed C14-n3) *)
+Theorem unpickled_delegate_follows :
+  forall o v, dread (dpickle o) = dread o /\ (d_override o = None -> dread (dset_target (dpickle o) v) = v).
+Proof. exact Graph.unpickled_delegate_follows. Qed.
+Print Assumptions unpickled_delegate_follows.
+
+Example seeded_shapes_refuted :
+  (exists w flag state, sget (setstate_early_hooks w flag state) flag <> sget (setstate_quiet w flag state) flag)
+  /\ (exists o v, d_override o = None /\ dread (dset_target (dpickle_resolved o) v) <> v)
+  /\ (let shared := Ob 7 true [(0, 1)] [] in
+      let '(c1, m1, n1) := copy_m Pickle (fun _ => None) shared [] 100 in
+      copy_m Pickle (fun _ => None) shared m1 n1 = (c1, m1, n1) /\ id_of c1 = 100).
+Proof. split; [exact early_hooks_refuted|]. split; [exact resolved_pickle_refuted|]. vm_compute. split; reflexivity. Qed.
+
+Example instance_graph_nontrivial :
+  let meta := fun k => if k =? 1 then Some CDeep else None in      (* field 1: Instance (deep), field 2: Dict values *)
+  let leaf := fun i => Ob i true [(0, i)] [] in
+  let o := Ob 10 true [(0, 5)] [(1, Ob 11 true [] [(1, leaf 12); (2, leaf 13)]); (2, leaf 14)] in
+  let c := fst (copy_obj Deepcopy meta o 100) in
+  oerase c = oerase o
+  /\ oids c = [100; 101; 102; 13; 14]          (* deep fields new at every depth, reference fields shared *)
+  /\ oids (fst (copy_obj Pickle meta o 100)) = [100; 101; 102; 103; 104]
+  /\ assign_initonly c 9 9 = None /\ assign_initonly (Ob 1 false [] []) 9 9 <> None.
+Proof. vm_compute. repeat split; try reflexivity. discriminate. Qed.
 
 (* ----- refuted on the current tree (known findings): the model follows the code ----- *)
 (* copy.deepcopy shares a list held by an Any trait without copy metadata *)
